@@ -196,7 +196,7 @@ def kinematics(vk, cfg):
     vk.canary("VolumeChange/hessian==0", H, 0 * H)
 
 
-@contract("C03", "mixed", configs=[dict(wrapper=w, parallel=p) for w in ("ThreeFieldVariation", "NearlyIncompressible") for p in (False, True)])
+@contract("C03", "mixed", configs=[dict(wrapper=w, parallel=p) for w in ("ThreeFieldVariation", "NearlyIncompressible") for p in (False, True)] + [dict(wrapper="NearlyIncompressible", parallel=False, volumetric="custom")])
 def mixed(vk, cfg):
     """every returned block of the (u, p, J) formulations is the corresponding mixed second derivative"""
     inner = StubMaterial(vk, hyperelastic=True)
@@ -209,7 +209,11 @@ def mixed(vk, cfg):
     if cfg["wrapper"] == "ThreeFieldVariation":
         umat = fem.ThreeFieldVariation(inner, parallel=cfg["parallel"])
     else:
-        umat = fem.NearlyIncompressible(inner, bulk=vk.real_scalar("bulk", near=5.0), parallel=cfg["parallel"])
+        if cfg.get("volumetric") == "custom":
+            # user-supplied non-quadratic volumetric part U(J) = bulk/2 ((J^2 - 1)/2 - ln J): dU/dJ, d2U/dJ2 given
+            umat = fem.NearlyIncompressible(inner, bulk=vk.real_scalar("bulk", near=5.0), dUdJ=lambda J, bulk: bulk * (J - 1 / J) / 2, d2UdJdJ=lambda J, bulk: bulk * (1 + 1 / J**2) / 2)
+        else:
+            umat = fem.NearlyIncompressible(inner, bulk=vk.real_scalar("bulk", near=5.0), parallel=cfg["parallel"])
     cls = type(umat)
     vk.real(cls.gradient)
     vk.real(cls.hessian)
